@@ -506,6 +506,6 @@ func build(tier string) ([]runner.Instance, time.Duration) {
 }
 
 func main() {
-	runner.Main(runner.Options{Property: "C14", Level: "exploration", Build: build,
+	runner.Main(runner.Options{Property: "C14", Level: "exploration", Build: build, RacePoints: true,
 		Assume: []string{"model of sync/context/channels in verif/vs (DESIGN §2.2)", "small scope: <=2 waiters, <=3 workers, <=3 deviations"}})
 }
